@@ -972,6 +972,13 @@ class Interp:
                 val[i] = Ptr(copy_rec(iv))          # `new T(args)`: a fresh object holding what the constructor produced
                 return
             self.broken(fn, e, 'new of a %s' % type(iv).__name__)
+        if k == 'CXXNewExpr' and not e.get('nplace') and not e.get('place') and e.get('asize') is not None:
+            n_ = self.rv(V(e['asize']))
+            if not isinstance(n_, int) or n_ < 0 or n_ > 4096:
+                self.broken(fn, e, 'array new of a non-constant or large size')
+            iv = self.rv(V(e['init'])) if e.get('init') is not None else None
+            val[i] = It(Vec([copy_rec(iv) if isinstance(iv, Rec) else (Rec() if iv is None else iv) for _ in range(n_)]), 0)     # `new T[n]`: n default-constructed cells
+            return
         if k == 'CXXNewExpr' and e.get('nplace') == 1 and e.get('place'):
             tgt = self.rv(V(e['place'][0]))
             iv = self.rv(V(e['init'])) if e.get('init') is not None else None
